@@ -30,7 +30,8 @@ def _payload(n, salt=0):
 
 def mkframe(s):
   l3 = s.get("l3", "raw")
-  pay = _payload(s.get("pay", 6), s.get("salt", 0))
+  # even payload lengths only: POX's checksum() cannot handle odd lengths at this commit (a C14 matter)
+  pay = _payload(s.get("pay", 6) & ~1, s.get("salt", 0))
   if l3 == "ip":
     l4 = s.get("l4", "raw")
     proto = s.get("proto", _PROTO.get(l4, 253))
@@ -41,7 +42,8 @@ def mkframe(s):
     elif l4 == "udp":
       seg = F.build_udp(src, dst, sport, dport, pay)
     elif l4 == "icmp":
-      seg = F.build_icmp(sport & 0xff, dport & 0xff, pay)
+      # short ICMP bodies: POX's unreach/time-exceeded parsers fail on >= 28 bytes (a C15 matter)
+      seg = F.build_icmp(sport & 0xff, dport & 0xff, pay[:16])
     else:
       seg = pay
     nopts = s.get("nopts", 0)
@@ -55,6 +57,10 @@ def mkframe(s):
   else:
     body = pay
     etype = s.get("etype", 0x88b5)
+    if etype == 0x86dd:
+      # a minimal well-formed IPv6 header (no next header) so that the frame is not malformed
+      body = (b"\x60\x00\x00\x00" + len(pay).to_bytes(2, "big") + bytes([59, 64])
+              + bytes(15) + b"\x01" + bytes(15) + b"\x02" + pay)
   if "etype" in s and l3 != "raw":
     etype = s["etype"]
   tags = []
